@@ -259,6 +259,12 @@ func typeOf(e ast.Expr, pkg string) tinfo {
 		if ti, ok := poolPtrTypeOf(t); ok { // ext_c13trans.go (config "poolptr")
 			return ti
 		}
+		if ti, ok := mbPtrTypeOf(t); ok { // ext_mb.go (config "memstructs"): *T is an address
+			return ti
+		}
+		if ti, ok := acpiTypeOf(t); ok { // ext_acpi.go (config "acpi"): *S for a struct laid out in memory is an address
+			return ti
+		}
 		if sel, ok := t.X.(*ast.SelectorExpr); ok && sel.Sel.Name == "Error" {
 			return tinfo{width: -2}
 		}
@@ -666,8 +672,18 @@ func (tr *translator) wrap(w int, s string) string {
 
 // expr returns the Gallina term and the type
 func (tr *translator) expr(e ast.Expr, en *env) (string, tinfo) {
+	if mbOn() { // ext_mb.go (config "memstructs")
+		if s, ti, ok := tr.mbExpr(e, en); ok {
+			return s, ti
+		}
+	}
 	if memOn() { // ext_mem.go
 		if s, ti, ok := tr.memExpr(e, en); ok {
+			return s, ti
+		}
+	}
+	if acpiOn() { // ext_acpi.go
+		if s, ti, ok := tr.acpiExpr(e, en); ok {
 			return s, ti
 		}
 	}
@@ -1282,8 +1298,18 @@ func (tr *translator) block(stmts []ast.Stmt, en *env, k func(en *env) string) s
 		return k(en)
 	}
 	rest := func(en2 *env) string { return tr.block(stmts[1:], en2, k) }
+	if mbOn() { // ext_mb.go (config "memstructs")
+		if out, ok := tr.mbStmt(stmts, en, k, rest); ok {
+			return out
+		}
+	}
 	if memOn() { // ext_mem.go
 		if out, ok := tr.memStmt(stmts, en, k, rest); ok {
+			return out
+		}
+	}
+	if acpiOn() { // ext_acpi.go
+		if out, ok := tr.acpiStmt(stmts, en, k, rest); ok {
 			return out
 		}
 	}
@@ -2381,6 +2407,7 @@ func main() {
 		fail("%v", err)
 	}
 	memLoadConfig(data) // ext_mem.go
+	acpiLoadConfig(data) // ext_acpi.go
 	fset := token.NewFileSet()
 	files := map[string]*ast.File{}
 	funcs := map[string]fnSpec{}
